@@ -1,12 +1,12 @@
 PROP = dict(
-    id='C03', level='exploration',
-    pyvc=['contracts.c03'],
+    id='C08', level='exploration',
+    pyvc=[],
     finite=[],
-    bounded='bounded.c03',
+    bounded='bounded.c08',
     bounded_budget=dict(quick=45, thorough=420),
     assumptions=[],
     trusted_base=['z3 5.1 / cvc5 1.0.3', 'pyvc symbolic executor and its encoding of Python (DESIGN.md section 2.3)', 'CPython 3.12, PLY 3.11 (A-PLY)'],
-    manifest=dict(text='Bounded: loaded links compared with the key-matching rule on all multisets of rows over null/unset/zero/ordinary keys; all permutations of <=6 statements, all splits, 8 packaging layouts; API and clone routes.',
-                  note='PLY, os.walk, zipfile (A-IO).',
+    manifest=dict(text='Bounded: 24 catalogue programs x every keyword in 3 spellings, plus C04 programs in 2-5 casings: same parse tree, same interpreted result and final model, same prebuilt instances apart from recorded source text.',
+                  note='PLY (A-PLY).',
                   technique='bounded stand-in: run-time contracts on the real functions driven by exhaustive small-scope enumeration (labelled bounded, never counted as proved)'),
 )
